@@ -189,7 +189,9 @@ int main(VF_MAIN_ARGS)
             else if (OPC == 1 || OPC == 3) {
                 ok = (has_value && (IN.dup_ok & 1)) ? 1 : 0;
                 if (status == 0) VF_AP(16, dup_calls == 1 && dup_arg == &m_value && root.valueint == 777 && root.string == 0 && root.type == (m_value.type & 0xFF), "C16 add/replace at \"\" replaces the whole document by a copy of the value");
-            } else if (!has_from) ok = 0; else defined = 0;              /* move/copy to "": status decided by the from lookup, document replaced (not modelled here) */
+            } else if (!has_from) ok = 0;
+            else if (OPC == 5) ok = (spec_resolve(0) != 0 && (IN.dup_ok & 1)) ? 1 : 0;      /* copy to "": the value at from becomes the document */
+            else { cJSON *moved = 0; int r = spec_remove((unsigned char *)frombuf, &ci, &moved); if (r < 0) defined = 0; else ok = r; }   /* move to "" */
         }
         else {
             if (OPC == 2 || OPC == 3) { int r = spec_remove((unsigned char *)pathbuf, &ci, &value); if (r < 0) defined = 0; else if (!r) ok = 0; value = 0; }
